@@ -11,7 +11,7 @@ Definition FAM_fixpnt : Z := 3.
 Definition FAM_integer : Z := 4.
 Definition FAM_lns : Z := 5.
 Definition judge (fam : Z) (cfg : list Z) (op : Z) (args res : list Z) : verdict :=
-  if Z.leb OP_hexfmt op && Z.leb op OP_streamfmt && Z.ltb fam 11 then judge_text fam cfg op args res else
+  if Z.leb OP_hexfmt op && Z.leb op OP_strassign && Z.ltb fam 11 then judge_text fam cfg op args res else
   if Z.eqb op OP_limits then judge_limits fam cfg res else
   if Z.eqb fam FAM_posit then judge_posit cfg op args res else
   if Z.eqb fam FAM_cfloat then (if Z.eqb op OP_gen_two_sum then judge_gen_two_sum cfg args res else if Z.eqb op OP_sqrt then judge_sqrt_cfloat cfg args res else judge_cfloat cfg op args res) else
